@@ -152,7 +152,11 @@ Qed.
 
 Lemma get_none_not_in {V} (m : amap V) k : get m k = None <-> ~ In k (keys m).
 Proof.
-  rewrite <- get_in_keys. destruct (get m k) as [v|]; split; intros H; try tauto; try discriminate.
+  rewrite <- get_in_keys. destruct (get m k) as [v|]; split.
+  - discriminate.
+  - intros H. exfalso. apply H. discriminate.
+  - intros _ H. apply H. reflexivity.
+  - reflexivity.
 Qed.
 
 Lemma nodup_remove {V} (m : amap V) k : NoDup (keys m) -> NoDup (keys (remove m k)).
@@ -699,3 +703,1099 @@ Qed.
 
 Lemma keys_snap_of grp : map fst (snap_of grp) = keys (g_topics grp).
 Proof. unfold snap_of, keys. rewrite map_map. reflexivity. Qed.
+
+(* every listing of a well-formed state is duplicate-free: equality as sets is equality as multisets *)
+Theorem listings_nodup cf now s r : wf_state s -> is_fetch r = true -> NoDup (names (obs cf now s r)).
+Proof.
+  intros [Hnd Hall] Hf. destruct r; try discriminate Hf.
+  - rewrite obs_clusters. exact Hnd.
+  - rewrite (obs_cluster _ _ s (FetchConsumers c) c eq_refl eq_refl). destruct (get s c) as [cl|] eqn:Hc; [|constructor].
+    cbn. apply (Hall _ _ Hc).
+  - rewrite (obs_cluster _ _ s (FetchTopics c) c eq_refl eq_refl). destruct (get s c) as [cl|] eqn:Hc; [|constructor].
+    cbn. apply (Hall _ _ Hc).
+  - rewrite (obs_cluster _ _ s (FetchConsumer c g) c eq_refl eq_refl). destruct (get s c) as [cl|] eqn:Hc; [|constructor].
+    cbn [cluster_reply]. destruct (get (cl_consumer cl) g) as [grp|] eqn:Hg; [|constructor].
+    destruct (expired cf now (g_last grp)); [constructor|].
+    destruct (fetch_topics_lags (cl_broker cl) (snap_of grp)) as [l|] eqn:El; [|constructor].
+    cbn [option_map names]. rewrite (fetch_topics_lags_keys _ _ _ El), keys_snap_of.
+    destruct (Hall _ _ Hc) as [_ [_ Hg']]. exact (Hg' _ _ Hg).
+  - rewrite (obs_cluster _ _ s (FetchTopic c t) c eq_refl eq_refl). destruct (get s c) as [cl|] eqn:Hc; [|constructor].
+    cbn [cluster_reply]. destruct (get (cl_broker cl) t); constructor.
+  - rewrite (obs_cluster _ _ s (FetchConsumersForTopic c t) c eq_refl eq_refl). destruct (get s c) as [cl|] eqn:Hc; [|constructor].
+    cbn. apply nodup_filter_keys. apply (Hall _ _ Hc).
+Qed.
+
+(* ------------------------------------------------------------------------------------------ *)
+(* 6. C09 one-step theorems                                                                    *)
+(* ------------------------------------------------------------------------------------------ *)
+
+Lemma obs_after_dg cf now now' s c g t r :
+  req_cluster r = Some c -> is_fetch r = true ->
+  obs cf now' (after cf now s (DeleteGroup c g t)) r =
+  cluster_reply cf now' (option_map (fun cl => mkCluster (cl_broker cl) (dg_cons (cl_consumer cl) g t)) (get s c)) r.
+Proof.
+  intros Hc Hf. rewrite (obs_cluster _ _ _ r c Hc Hf). rewrite get_after_delete_group, Z.eqb_refl. reflexivity.
+Qed.
+
+Lemma obs_after_dt cf now now' s c t r :
+  req_cluster r = Some c -> is_fetch r = true ->
+  obs cf now' (after cf now s (DeleteTopic c t)) r =
+  cluster_reply cf now' (option_map (fun cl => dt_cluster cl t) (get s c)) r.
+Proof.
+  intros Hc Hf. rewrite (obs_cluster _ _ _ r c Hc Hf). rewrite get_after_delete_topic, Z.eqb_refl. reflexivity.
+Qed.
+
+(* 6.1 DeleteGroup, whole group (topic = "") ------------------------------------------------- *)
+
+Theorem delete_group_removed cf now now' s c g :
+  let s' := after cf now s (DeleteGroup c g 0) in
+  obs cf now' s' (FetchConsumer c g) = Some RNil /\
+  ~ In g (names (obs cf now' s' (FetchConsumers c))) /\
+  (forall t, ~ In g (names (obs cf now' s' (FetchConsumersForTopic c t)))).
+Proof.
+  intros s'. unfold s'.
+  rewrite (obs_after_dg _ _ _ _ _ _ _ (FetchConsumer c g) eq_refl eq_refl).
+  rewrite (obs_after_dg _ _ _ _ _ _ _ (FetchConsumers c) eq_refl eq_refl).
+  destruct (get s c) as [cl|] eqn:Hc; cbn [option_map cluster_reply cl_consumer cl_broker names].
+  - rewrite get_dg_cons_whole. split; [reflexivity|]. split.
+    + apply get_none_not_in. apply get_dg_cons_whole.
+    + intros t. rewrite (obs_after_dg _ _ _ _ _ _ _ (FetchConsumersForTopic c t) eq_refl eq_refl), Hc.
+      cbn [option_map cluster_reply cl_consumer names]. intros Hin. apply in_filter_keys_weak in Hin.
+      revert Hin. apply get_none_not_in. apply get_dg_cons_whole.
+  - split; [reflexivity|]. split; [intros []|]. intros t.
+    rewrite (obs_after_dg _ _ _ _ _ _ _ (FetchConsumersForTopic c t) eq_refl eq_refl), Hc. intros [].
+Qed.
+
+(* the part of the frame that DeleteGroup has for every topic argument *)
+Theorem delete_group_frame cf now now' s c g t :
+  let s' := after cf now s (DeleteGroup c g t) in
+  (forall r c', req_cluster r = Some c' -> c' <> c -> is_fetch r = true -> obs cf now' s' r = obs cf now' s r) /\
+  (forall x, In x (names (obs cf now' s' FetchClusters)) <-> In x (names (obs cf now' s FetchClusters))) /\
+  (forall g', g' <> g -> obs cf now' s' (FetchConsumer c g') = obs cf now' s (FetchConsumer c g')) /\
+  obs cf now' s' (FetchTopics c) = obs cf now' s (FetchTopics c) /\
+  (forall t', obs cf now' s' (FetchTopic c t') = obs cf now' s (FetchTopic c t')).
+Proof.
+  intros s'. unfold s'. split; [|split; [|split; [|split]]].
+  - intros r c' Hr Hne Hf. apply (obs_ext _ _ _ _ r c' Hr Hf). rewrite get_after_delete_group.
+    destruct (c =? c') eqn:E; [apply Z.eqb_eq in E; congruence|reflexivity].
+  - intros x. rewrite !obs_clusters. cbn [names]. apply keys_after_delete_group.
+  - intros g' Hne. rewrite obs_after_dg by reflexivity. rewrite (obs_cluster _ _ s (FetchConsumer c g') c eq_refl eq_refl).
+    destruct (get s c) as [cl|]; [|reflexivity]. cbn [option_map cluster_reply cl_consumer cl_broker].
+    rewrite get_dg_cons_other by exact Hne. reflexivity.
+  - rewrite obs_after_dg by reflexivity. rewrite (obs_cluster _ _ s (FetchTopics c) c eq_refl eq_refl).
+    destruct (get s c) as [cl|]; reflexivity.
+  - intros t'. rewrite obs_after_dg by reflexivity. rewrite (obs_cluster _ _ s (FetchTopic c t') c eq_refl eq_refl).
+    destruct (get s c) as [cl|]; reflexivity.
+Qed.
+
+Lemma consumes_dg_whole cons g x t : consumes (dg_cons cons g 0) x t <-> consumes cons x t /\ x <> g.
+Proof.
+  unfold consumes. destruct (Z.eq_dec x g) as [->|Hne].
+  - rewrite get_dg_cons_whole. split; [intros [v [H _]]; discriminate|intros [_ H]; contradiction].
+  - rewrite get_dg_cons_other by exact Hne. tauto.
+Qed.
+
+Theorem delete_group_listing cf now now' s c g :
+  wf_state s ->
+  let s' := after cf now s (DeleteGroup c g 0) in
+  (obs cf now' s' (FetchConsumers c) = Some RNil <-> obs cf now' s (FetchConsumers c) = Some RNil) /\
+  (forall x, In x (names (obs cf now' s' (FetchConsumers c))) <->
+             In x (names (obs cf now' s (FetchConsumers c))) /\ x <> g) /\
+  (forall t,
+     (obs cf now' s' (FetchConsumersForTopic c t) = Some RNil <-> obs cf now' s (FetchConsumersForTopic c t) = Some RNil) /\
+     (forall x, In x (names (obs cf now' s' (FetchConsumersForTopic c t))) <->
+                In x (names (obs cf now' s (FetchConsumersForTopic c t))) /\ x <> g)).
+Proof.
+  intros [_ Hall] s'. unfold s'.
+  rewrite (obs_after_dg _ _ _ _ _ _ _ (FetchConsumers c) eq_refl eq_refl).
+  rewrite (obs_cluster _ _ s (FetchConsumers c) c eq_refl eq_refl).
+  destruct (get s c) as [cl|] eqn:Hc; cbn [option_map cluster_reply cl_consumer cl_broker names].
+  - split; [split; discriminate|]. split.
+    + intros x. rewrite <- !get_in_keys. destruct (Z.eq_dec x g) as [->|Hne].
+      * rewrite get_dg_cons_whole. split; [contradiction|intros [_ H]; contradiction].
+      * rewrite get_dg_cons_other by exact Hne. tauto.
+    + intros t. rewrite (obs_after_dg _ _ _ _ _ _ _ (FetchConsumersForTopic c t) eq_refl eq_refl).
+      rewrite (obs_cluster _ _ s (FetchConsumersForTopic c t) c eq_refl eq_refl). rewrite Hc.
+      cbn [option_map cluster_reply cl_consumer cl_broker names]. split; [split; discriminate|].
+      intros x. pose proof (Hall _ _ Hc) as Hcl. pose proof (wf_dg_cons cl g 0 Hcl) as [_ [Hnd' _]].
+      cbn [cl_consumer] in Hnd'. destruct Hcl as [_ [Hnd _]].
+      rewrite (in_for_topic _ _ _ Hnd'), (in_for_topic _ _ _ Hnd). apply consumes_dg_whole.
+  - split; [tauto|]. split; [cbn; tauto|]. intros t.
+    rewrite (obs_after_dg _ _ _ _ _ _ _ (FetchConsumersForTopic c t) eq_refl eq_refl).
+    rewrite (obs_cluster _ _ s (FetchConsumersForTopic c t) c eq_refl eq_refl). rewrite Hc.
+    cbn. tauto.
+Qed.
+
+(* 6.2 DeleteGroup, one topic of the group ---------------------------------------------------- *)
+
+Theorem delete_group_topic_removed cf now now' s c g t :
+  wf_state s -> t <> 0 ->
+  let s' := after cf now s (DeleteGroup c g t) in
+  ~ In t (names (obs cf now' s' (FetchConsumer c g))) /\
+  ~ In g (names (obs cf now' s' (FetchConsumersForTopic c t))).
+Proof.
+  intros [_ Hall] Ht s'. unfold s'.
+  rewrite (obs_after_dg _ _ _ _ _ _ _ (FetchConsumer c g) eq_refl eq_refl).
+  rewrite (obs_after_dg _ _ _ _ _ _ _ (FetchConsumersForTopic c t) eq_refl eq_refl).
+  destruct (get s c) as [cl|] eqn:Hc; cbn [option_map cluster_reply cl_consumer cl_broker]; [|cbn; tauto].
+  split.
+  - rewrite get_dg_cons_topic by exact Ht. destruct (get (cl_consumer cl) g) as [grp|]; [|cbn; tauto].
+    destruct (is_nil (remove (g_topics grp) t)); [cbn; tauto|]. cbn [g_last].
+    destruct (expired cf now' (g_last grp)); [cbn; tauto|].
+    match goal with |- context [fetch_topics_lags ?a ?b] => destruct (fetch_topics_lags a b) as [l|] eqn:El end;
+      cbn [option_map names]; [|tauto].
+    rewrite (fetch_topics_lags_keys _ _ _ El), keys_snap_of. cbn [g_topics]. intros Hin.
+    apply keys_remove in Hin. tauto.
+  - cbn [names]. pose proof (wf_dg_cons cl g t (Hall _ _ Hc)) as [_ [Hnd' _]]. cbn [cl_consumer] in Hnd'.
+    rewrite (in_for_topic _ _ _ Hnd'). unfold consumes. rewrite get_dg_cons_topic by exact Ht.
+    destruct (get (cl_consumer cl) g) as [grp|]; [|intros [v [H _]]; discriminate].
+    destruct (is_nil (remove (g_topics grp) t)); [intros [v [H _]]; discriminate|].
+    intros [v [H Hv]]. injection H as <-. cbn [g_topics] in Hv. apply Hv. apply get_remove_eq.
+Qed.
+
+Lemma consumes_dg_topic cons g t x t' :
+  t <> 0 -> (consumes (dg_cons cons g t) x t' <-> consumes cons x t' /\ (x = g -> t' <> t)).
+Proof.
+  intros Ht. unfold consumes. destruct (Z.eq_dec x g) as [->|Hne].
+  - rewrite get_dg_cons_topic by exact Ht. destruct (get cons g) as [grp|] eqn:Eg.
+    + destruct (is_nil (remove (g_topics grp) t)) eqn:En.
+      * split; [intros [v [H _]]; discriminate|].
+        intros [[v [Hv Hg]] Hne]. injection Hv as <-. exfalso.
+        assert (Hf : is_nil (remove (g_topics grp) t) = false).
+        { apply is_nil_false_other. exists t'. split; [apply Hne; reflexivity|exact Hg]. }
+        congruence.
+      * split.
+        -- intros [v [Hv Hg]]. injection Hv as <-. cbn [g_topics] in Hg. rewrite get_remove in Hg.
+           destruct (t =? t') eqn:E; [contradiction Hg; reflexivity|]. apply Z.eqb_neq in E.
+           split; [exists grp; split; [reflexivity|exact Hg]|intros _ H; apply E; symmetry; exact H].
+        -- intros [[v [Hv Hg]] Hne]. injection Hv as <-. eexists. split; [reflexivity|]. cbn [g_topics].
+           rewrite get_remove_neq; [exact Hg|]. intros H. apply (Hne eq_refl). symmetry. exact H.
+    + split; [intros [v [H _]]; discriminate|intros [[v [H _]] _]; discriminate].
+  - rewrite get_dg_cons_other by exact Hne. split; [intros H; split; [exact H|intros; contradiction]|tauto].
+Qed.
+
+Theorem delete_group_topic_listing cf now now' s c g t :
+  wf_state s -> t <> 0 ->
+  let s' := after cf now s (DeleteGroup c g t) in
+  (obs cf now' s' (FetchConsumers c) = Some RNil <-> obs cf now' s (FetchConsumers c) = Some RNil) /\
+  (forall x, In x (names (obs cf now' s' (FetchConsumers c))) <->
+             In x (names (obs cf now' s (FetchConsumers c))) /\ (x = g -> has_other_topic s c g t)) /\
+  (forall t',
+     (obs cf now' s' (FetchConsumersForTopic c t') = Some RNil <-> obs cf now' s (FetchConsumersForTopic c t') = Some RNil) /\
+     (forall x, In x (names (obs cf now' s' (FetchConsumersForTopic c t'))) <->
+                In x (names (obs cf now' s (FetchConsumersForTopic c t'))) /\ (x = g -> t' <> t))).
+Proof.
+  intros [_ Hall] Ht s'. unfold s'.
+  rewrite (obs_after_dg _ _ _ _ _ _ _ (FetchConsumers c) eq_refl eq_refl).
+  rewrite (obs_cluster _ _ s (FetchConsumers c) c eq_refl eq_refl).
+  destruct (get s c) as [cl|] eqn:Hc; cbn [option_map cluster_reply cl_consumer cl_broker names].
+  - split; [split; discriminate|]. split.
+    + intros x. rewrite <- !get_in_keys. destruct (Z.eq_dec x g) as [->|Hne].
+      * rewrite get_dg_cons_topic by exact Ht. destruct (get (cl_consumer cl) g) as [grp|] eqn:Eg.
+        -- destruct (is_nil (remove (g_topics grp) t)) eqn:En.
+           ++ split; [contradiction|]. intros [_ H]. destruct (H eq_refl) as [cl0 [grp0 [t' [Hc0 [Hg0 [Hne Ht']]]]]].
+              rewrite Hc in Hc0. injection Hc0 as <-. rewrite Eg in Hg0. injection Hg0 as <-. exfalso.
+              assert (Hf : is_nil (remove (g_topics grp) t) = false).
+              { apply is_nil_false_other. exists t'. split; assumption. }
+              congruence.
+           ++ split; [|discriminate]. intros _. split; [discriminate|]. intros _.
+              apply is_nil_false_other in En. destruct En as [t' [Hne Ht']].
+              exists cl, grp, t'. repeat split; assumption.
+        -- split; [contradiction|intros [H _]; contradiction].
+      * rewrite get_dg_cons_other by exact Hne. split; [intros H; split; [exact H|intros; contradiction]|tauto].
+    + intros t'. rewrite (obs_after_dg _ _ _ _ _ _ _ (FetchConsumersForTopic c t') eq_refl eq_refl).
+      rewrite (obs_cluster _ _ s (FetchConsumersForTopic c t') c eq_refl eq_refl). rewrite Hc.
+      cbn [option_map cluster_reply cl_consumer cl_broker names]. split; [split; discriminate|].
+      intros x. pose proof (Hall _ _ Hc) as Hcl. pose proof (wf_dg_cons cl g t Hcl) as [_ [Hnd' _]].
+      cbn [cl_consumer] in Hnd'. destruct Hcl as [_ [Hnd _]].
+      rewrite (in_for_topic _ _ _ Hnd'), (in_for_topic _ _ _ Hnd). apply consumes_dg_topic. exact Ht.
+  - split; [tauto|]. split; [cbn; tauto|]. intros t'.
+    rewrite (obs_after_dg _ _ _ _ _ _ _ (FetchConsumersForTopic c t') eq_refl eq_refl).
+    rewrite (obs_cluster _ _ s (FetchConsumersForTopic c t') c eq_refl eq_refl). rewrite Hc.
+    cbn. tauto.
+Qed.
+
+(* the group's remaining topics, partitions included, are reported exactly as before *)
+Theorem delete_group_topic_detail cf now now' s c g t :
+  t <> 0 ->
+  let s' := after cf now s (DeleteGroup c g t) in
+  (forall l, obs cf now' s (FetchConsumer c g) = Some (RConsumer l) ->
+     obs cf now' s' (FetchConsumer c g) = if is_nil (remove l t) then Some RNil else Some (RConsumer (remove l t))) /\
+  (obs cf now' s (FetchConsumer c g) = Some RNil -> obs cf now' s' (FetchConsumer c g) = Some RNil).
+Proof.
+  intros Ht s'. unfold s'.
+  rewrite (obs_after_dg _ _ _ _ _ _ _ (FetchConsumer c g) eq_refl eq_refl).
+  rewrite (obs_cluster _ _ s (FetchConsumer c g) c eq_refl eq_refl).
+  destruct (get s c) as [cl|] eqn:Hc; cbn [option_map cluster_reply cl_consumer cl_broker];
+    [|split; [intros; discriminate|auto]].
+  rewrite get_dg_cons_topic by exact Ht.
+  destruct (get (cl_consumer cl) g) as [[tops lst]|]; [|split; [intros; discriminate|auto]].
+  cbn [g_topics g_last]. split.
+  - intros l. destruct (expired cf now' lst) eqn:He; [discriminate|].
+    destruct (fetch_topics_lags (cl_broker cl) (snap_of (mkCgroup tops lst))) as [l0|] eqn:El; cbn [option_map];
+      [|discriminate].
+    intros H. injection H as <-.
+    assert (Hn : is_nil (remove l0 t) = is_nil (remove tops t)).
+    { rewrite !is_nil_remove. f_equal. unfold keys at 1. rewrite (fetch_topics_lags_keys _ _ _ El). apply keys_snap_of. }
+    rewrite Hn. destruct (is_nil (remove tops t)); [reflexivity|]. cbn [g_last g_topics]. rewrite He.
+    rewrite snap_of_remove.
+    rewrite (fetch_topics_lags_remove _ _ _ t El). reflexivity.
+  - destruct (expired cf now' lst) eqn:He.
+    + intros _. destruct (is_nil (remove tops t)); [reflexivity|]. cbn [g_last g_topics]. rewrite He. reflexivity.
+    + destruct (fetch_topics_lags (cl_broker cl) (snap_of (mkCgroup tops lst))); cbn [option_map]; discriminate.
+Qed.
+
+(* 6.3 DeleteTopic ---------------------------------------------------------------------------- *)
+
+Lemma filter_has_topic_dt cons t : filter (has_topic t) (map_vals (dt_group t) cons) = [].
+Proof.
+  unfold map_vals. induction cons as [|[k v] r IH]; cbn [map filter]; [reflexivity|].
+  unfold has_topic at 1. cbn [fst snd dt_group g_topics]. rewrite get_remove_eq. exact IH.
+Qed.
+
+Lemma filter_has_topic_dt_other cons t t' :
+  t' <> t -> map fst (filter (has_topic t') (map_vals (dt_group t) cons)) = map fst (filter (has_topic t') cons).
+Proof.
+  intros Hne. unfold map_vals. induction cons as [|[k v] r IH]; cbn [map filter]; [reflexivity|].
+  assert (Hh : has_topic t' (k, dt_group t v) = has_topic t' (k, v)).
+  { unfold has_topic. cbn [snd dt_group g_topics]. rewrite get_remove_neq by auto. reflexivity. }
+  cbn [fst snd]. rewrite Hh. destruct (has_topic t' (k, v)); cbn [map fst]; [f_equal|]; exact IH.
+Qed.
+
+Theorem delete_topic_removed cf now now' s c t :
+  let s' := after cf now s (DeleteTopic c t) in
+  ~ In t (names (obs cf now' s' (FetchTopics c))) /\
+  obs cf now' s' (FetchTopic c t) = Some RNil /\
+  names (obs cf now' s' (FetchConsumersForTopic c t)) = [] /\
+  (forall g, ~ In t (names (obs cf now' s' (FetchConsumer c g)))).
+Proof.
+  intros s'. unfold s'.
+  rewrite (obs_after_dt _ _ _ _ _ _ (FetchTopics c) eq_refl eq_refl).
+  rewrite (obs_after_dt _ _ _ _ _ _ (FetchTopic c t) eq_refl eq_refl).
+  rewrite (obs_after_dt _ _ _ _ _ _ (FetchConsumersForTopic c t) eq_refl eq_refl).
+  destruct (get s c) as [cl|] eqn:Hc; cbn [option_map cluster_reply dt_cluster cl_consumer cl_broker names].
+  - split; [intros Hin; apply keys_remove in Hin; tauto|].
+    split; [rewrite get_remove_eq; reflexivity|].
+    split; [rewrite filter_has_topic_dt; reflexivity|].
+    intros g. rewrite (obs_after_dt _ _ _ _ _ _ (FetchConsumer c g) eq_refl eq_refl), Hc.
+    cbn [option_map cluster_reply dt_cluster cl_consumer cl_broker]. rewrite get_map_vals.
+    destruct (get (cl_consumer cl) g) as [grp|]; cbn [option_map]; [|cbn; tauto].
+    cbn [dt_group g_last]. destruct (expired cf now' (g_last grp)); [cbn; tauto|].
+    match goal with |- context [fetch_topics_lags ?a ?b] => destruct (fetch_topics_lags a b) as [l|] eqn:El end;
+      cbn [option_map names]; [|tauto].
+    rewrite (fetch_topics_lags_keys _ _ _ El), keys_snap_of. cbn [g_topics]. intros Hin.
+    apply keys_remove in Hin. tauto.
+  - split; [intros []|]. split; [reflexivity|]. split; [reflexivity|]. intros g.
+    rewrite (obs_after_dt _ _ _ _ _ _ (FetchConsumer c g) eq_refl eq_refl), Hc. intros [].
+Qed.
+
+Theorem delete_topic_frame cf now now' s c t :
+  let s' := after cf now s (DeleteTopic c t) in
+  (forall r c', req_cluster r = Some c' -> c' <> c -> is_fetch r = true -> obs cf now' s' r = obs cf now' s r) /\
+  (forall x, In x (names (obs cf now' s' FetchClusters)) <-> In x (names (obs cf now' s FetchClusters))) /\
+  obs cf now' s' (FetchConsumers c) = obs cf now' s (FetchConsumers c) /\
+  (obs cf now' s' (FetchTopics c) = Some RNil <-> obs cf now' s (FetchTopics c) = Some RNil) /\
+  (forall x, In x (names (obs cf now' s' (FetchTopics c))) <-> In x (names (obs cf now' s (FetchTopics c))) /\ x <> t) /\
+  (forall t', t' <> t -> obs cf now' s' (FetchTopic c t') = obs cf now' s (FetchTopic c t')) /\
+  (forall t', t' <> t -> obs cf now' s' (FetchConsumersForTopic c t') = obs cf now' s (FetchConsumersForTopic c t')) /\
+  (forall g l, obs cf now' s (FetchConsumer c g) = Some (RConsumer l) ->
+               obs cf now' s' (FetchConsumer c g) = Some (RConsumer (remove l t))) /\
+  (forall g, obs cf now' s (FetchConsumer c g) = Some RNil -> obs cf now' s' (FetchConsumer c g) = Some RNil).
+Proof.
+  intros s'. unfold s'. split; [|split].
+  - intros r c' Hr Hne Hf. apply (obs_ext _ _ _ _ r c' Hr Hf). rewrite get_after_delete_topic.
+    destruct (c =? c') eqn:E; [apply Z.eqb_eq in E; congruence|reflexivity].
+  - intros x. rewrite !obs_clusters. cbn [names]. apply keys_after_delete_topic.
+  - rewrite (obs_after_dt _ _ _ _ _ _ (FetchConsumers c) eq_refl eq_refl).
+    rewrite (obs_after_dt _ _ _ _ _ _ (FetchTopics c) eq_refl eq_refl).
+    rewrite (obs_cluster _ _ s (FetchConsumers c) c eq_refl eq_refl).
+    rewrite (obs_cluster _ _ s (FetchTopics c) c eq_refl eq_refl).
+    destruct (get s c) as [cl|] eqn:Hc; cbn [option_map cluster_reply dt_cluster cl_consumer cl_broker names].
+    + split; [rewrite keys_map_vals; reflexivity|]. split; [split; discriminate|].
+      split; [intros x; apply keys_remove|]. split; [|split; [|split]].
+      * intros t' Hne. rewrite (obs_after_dt _ _ _ _ _ _ (FetchTopic c t') eq_refl eq_refl).
+        rewrite (obs_cluster _ _ s (FetchTopic c t') c eq_refl eq_refl). rewrite Hc.
+        cbn [option_map cluster_reply dt_cluster cl_consumer cl_broker]. rewrite get_remove_neq by auto. reflexivity.
+      * intros t' Hne. rewrite (obs_after_dt _ _ _ _ _ _ (FetchConsumersForTopic c t') eq_refl eq_refl).
+        rewrite (obs_cluster _ _ s (FetchConsumersForTopic c t') c eq_refl eq_refl). rewrite Hc.
+        cbn [option_map cluster_reply dt_cluster cl_consumer cl_broker]. rewrite filter_has_topic_dt_other by exact Hne.
+        reflexivity.
+      * intros g l. rewrite (obs_after_dt _ _ _ _ _ _ (FetchConsumer c g) eq_refl eq_refl).
+        rewrite (obs_cluster _ _ s (FetchConsumer c g) c eq_refl eq_refl). rewrite Hc.
+        cbn [option_map cluster_reply dt_cluster cl_consumer cl_broker]. rewrite get_map_vals.
+        destruct (get (cl_consumer cl) g) as [[tops lst]|]; cbn [option_map]; [|discriminate].
+        unfold dt_group; cbn [g_last g_topics]. destruct (expired cf now' lst); [discriminate|].
+        destruct (fetch_topics_lags (cl_broker cl) (snap_of (mkCgroup tops lst))) as [l0|] eqn:El; cbn [option_map];
+          [|discriminate].
+        intros H. injection H as <-. rewrite snap_of_remove.
+        rewrite (fetch_topics_lags_broker_ext (cl_broker cl)).
+        -- rewrite (fetch_topics_lags_remove _ _ _ t El). reflexivity.
+        -- intros t' Hin. change (map fst (remove (snap_of (mkCgroup tops lst)) t)) with
+             (keys (remove (snap_of (mkCgroup tops lst)) t)) in Hin.
+           apply keys_remove in Hin. apply get_remove_neq. intros E. apply (proj2 Hin). symmetry. exact E.
+      * intros g. rewrite (obs_after_dt _ _ _ _ _ _ (FetchConsumer c g) eq_refl eq_refl).
+        rewrite (obs_cluster _ _ s (FetchConsumer c g) c eq_refl eq_refl). rewrite Hc.
+        cbn [option_map cluster_reply dt_cluster cl_consumer cl_broker]. rewrite get_map_vals.
+        destruct (get (cl_consumer cl) g) as [[tops lst]|]; cbn [option_map]; [|auto].
+        unfold dt_group; cbn [g_last g_topics]. destruct (expired cf now' lst); [auto|].
+        destruct (fetch_topics_lags (cl_broker cl) (snap_of (mkCgroup tops lst))); cbn [option_map]; discriminate.
+    + split; [reflexivity|]. split; [tauto|]. split; [cbn; tauto|]. split; [|split; [|split]].
+      * intros t' _. rewrite (obs_after_dt _ _ _ _ _ _ (FetchTopic c t') eq_refl eq_refl).
+        rewrite (obs_cluster _ _ s (FetchTopic c t') c eq_refl eq_refl). rewrite Hc. reflexivity.
+      * intros t' _. rewrite (obs_after_dt _ _ _ _ _ _ (FetchConsumersForTopic c t') eq_refl eq_refl).
+        rewrite (obs_cluster _ _ s (FetchConsumersForTopic c t') c eq_refl eq_refl). rewrite Hc. reflexivity.
+      * intros g l. rewrite (obs_cluster _ _ s (FetchConsumer c g) c eq_refl eq_refl). rewrite Hc. discriminate.
+      * intros g _. rewrite (obs_after_dt _ _ _ _ _ _ (FetchConsumer c g) eq_refl eq_refl). rewrite Hc. reflexivity.
+Qed.
+
+(* ------------------------------------------------------------------------------------------ *)
+(* 7. C09 expiry: lazy purge, its converse, too-old commits, the int64 guards                  *)
+(* ------------------------------------------------------------------------------------------ *)
+
+(* (now - expire) * 1000 is computed in int64; inside the guard it is the mathematical value *)
+Lemma expiry_threshold_exact cf now :
+  in_i64 ((now - cf_expire cf) * 1000) -> mul64 (sub64 now (cf_expire cf)) 1000 = (now - cf_expire cf) * 1000.
+Proof.
+  intros H. assert (H1 : in_i64 (now - cf_expire cf)) by (unfold in_i64, two63 in *; lia).
+  unfold sub64, mul64. rewrite (wrap64_id _ H1). apply wrap64_id. exact H.
+Qed.
+
+Theorem expired_spec cf now last :
+  in_i64 ((now - cf_expire cf) * 1000) -> (expired cf now last = true <-> last < (now - cf_expire cf) * 1000).
+Proof. intros H. unfold expired. rewrite (expiry_threshold_exact _ _ H). apply Z.ltb_lt. Qed.
+
+Theorem too_old_spec cf now ts :
+  in_i64 ((now - cf_expire cf) * 1000) -> (too_old cf now ts = true <-> ts < (now - cf_expire cf) * 1000).
+Proof. intros H. unfold too_old. rewrite (expiry_threshold_exact _ _ H). apply Z.ltb_lt. Qed.
+
+(* the purge performed by an expired FetchConsumer is exactly a whole-group deletion *)
+Theorem purge_is_delete_group cf now s c g cl grp :
+  get s c = Some cl -> get (cl_consumer cl) g = Some grp -> expired cf now (g_last grp) = true ->
+  step cf now s (FetchConsumer c g) = Done (after cf now s (DeleteGroup c g 0)) RNil.
+Proof.
+  intros Hc Hg He. unfold after. cbn [step]. rewrite delete_group_eq. unfold fetch_consumer.
+  rewrite Hc, Hg, He. unfold dg_cons. rewrite Hg. reflexivity.
+Qed.
+
+Theorem expired_notfound_then_unlisted cf now s c g cl grp :
+  get s c = Some cl -> get (cl_consumer cl) g = Some grp -> expired cf now (g_last grp) = true ->
+  exists s', step cf now s (FetchConsumer c g) = Done s' RNil /\
+    s' = after cf now s (DeleteGroup c g 0) /\
+    forall now', obs cf now' s' (FetchConsumer c g) = Some RNil /\
+                 ~ In g (names (obs cf now' s' (FetchConsumers c))) /\
+                 (forall t, ~ In g (names (obs cf now' s' (FetchConsumersForTopic c t)))).
+Proof.
+  intros Hc Hg He. eexists. split; [exact (purge_is_delete_group _ _ _ _ _ _ _ Hc Hg He)|].
+  split; [reflexivity|]. intros now'. apply delete_group_removed.
+Qed.
+
+Theorem not_expired_unchanged cf now s c g cl grp :
+  get s c = Some cl -> get (cl_consumer cl) g = Some grp -> expired cf now (g_last grp) = false ->
+  after cf now s (FetchConsumer c g) = s /\ obs cf now s (FetchConsumer c g) <> Some RNil.
+Proof.
+  intros Hc Hg He. unfold after, obs. cbn [step]. unfold fetch_consumer. rewrite Hc, Hg, He. cbv zeta.
+  match goal with |- context [fetch_topics_lags ?a ?b] => destruct (fetch_topics_lags a b) end;
+    split; try reflexivity; discriminate.
+Qed.
+
+(* the only fetch that changes the state is the purge *)
+Theorem fetch_changes_state_only_by_purge cf now s r s' rep :
+  is_fetch r = true -> step cf now s r = Done s' rep ->
+  s' = s \/
+  exists c g cl grp, r = FetchConsumer c g /\ get s c = Some cl /\ get (cl_consumer cl) g = Some grp /\
+    expired cf now (g_last grp) = true /\ rep = RNil /\ s' = after cf now s (DeleteGroup c g 0).
+Proof.
+  intros Hf. destruct r; try discriminate Hf; cbn [step].
+  - intros H. injection H as <- _. left. reflexivity.
+  - destruct (get s c); intros H; injection H as <- _; left; reflexivity.
+  - destruct (get s c); intros H; injection H as <- _; left; reflexivity.
+  - intros H. pose proof H as H0. apply fetch_consumer_state in H.
+    destruct H as [->|[cl [grp [Hc [Hg [He [-> _]]]]]]]; [left; reflexivity|].
+    right. exists c, g, cl, grp. repeat split; try assumption.
+    pose proof (purge_is_delete_group _ _ _ _ _ _ _ Hc Hg He) as Hp. cbn [step] in Hp. rewrite Hp in H0.
+    injection H0 as <-. reflexivity.
+  - unfold fetch_topic. destruct (get s c) as [cl|]; [destruct (get (cl_broker cl) t)|]; intros H; injection H as <- _;
+      left; reflexivity.
+  - unfold fetch_consumers_for_topic. destruct (get s c); intros H; injection H as <- _; left; reflexivity.
+Qed.
+
+Theorem old_commit_ignored cf now s c g t p off order ts :
+  too_old cf now ts = true -> step cf now s (SetConsumerOffset c g t p off order ts) = Done s RNone.
+Proof.
+  intros H. cbn [step]. unfold add_consumer_offset. destruct (get s c); [|reflexivity]. rewrite H. reflexivity.
+Qed.
+
+(* ------------------------------------------------------------------------------------------ *)
+(* 8. C09 lifted to histories                                                                  *)
+(* ------------------------------------------------------------------------------------------ *)
+
+Lemma run_app cf h1 : forall s h2,
+  run cf s (h1 ++ h2) =
+  match run cf s h1 with
+  | None => None
+  | Some (s1, r1) => match run cf s1 h2 with None => None | Some (s2, r2) => Some (s2, r1 ++ r2) end
+  end.
+Proof.
+  induction h1 as [|[now r] rest IH]; intros s h2; cbn [run app].
+  - destruct (run cf s h2) as [[s2 r2]|]; reflexivity.
+  - destruct (step cf now s r) as [s1 rep|]; [|reflexivity]. rewrite IH.
+    destruct (run cf s1 rest) as [[s2 r2]|]; [|reflexivity].
+    destruct (run cf s2 h2) as [[s3 r3]|]; reflexivity.
+Qed.
+
+Lemma run_length cf h : forall s s' reps, run cf s h = Some (s', reps) -> length reps = length h.
+Proof.
+  induction h as [|[now r] rest IH]; intros s s' reps; cbn [run].
+  - intros H. injection H as _ <-. reflexivity.
+  - destruct (step cf now s r) as [s1 rep|]; [|discriminate].
+    destruct (run cf s1 rest) as [[s2 r2]|] eqn:E; [|discriminate].
+    intros H. injection H as _ <-. cbn. f_equal. exact (IH _ _ _ E).
+Qed.
+
+Lemma step_obs cf now s r s' rep : step cf now s r = Done s' rep -> obs cf now s r = Some rep.
+Proof. intros H. unfold obs. rewrite H. reflexivity. Qed.
+
+Lemma in_remove {V} (m : amap V) k kv : In kv (remove m k) -> In kv m.
+Proof. unfold remove. intros H. apply filter_In in H. tauto. Qed.
+
+(* 8.1 groups -------------------------------------------------------------------------------- *)
+
+Lemma absent_group_set s c0 cl cl' c g :
+  absent_group s c g -> get s c0 = Some cl ->
+  (c0 = c -> get (cl_consumer cl) g = None -> get (cl_consumer cl') g = None) ->
+  absent_group (set s c0 cl') c g.
+Proof.
+  intros H Hc Hn cl0. rewrite get_set. destruct (c0 =? c) eqn:E; [|apply H].
+  apply Z.eqb_eq in E. subst c0. intros X. injection X as <-. apply Hn; [reflexivity|]. exact (H _ Hc).
+Qed.
+
+Lemma get_dg_cons_none cons g0 t g : get cons g = None -> get (dg_cons cons g0 t) g = None.
+Proof.
+  intros H. destruct (Z.eq_dec g g0) as [->|Hne].
+  - unfold dg_cons. rewrite H. exact H.
+  - rewrite get_dg_cons_other by exact Hne. exact H.
+Qed.
+
+Lemma step_absent_group cf now s r s' rep c g :
+  absent_group s c g -> ~ creates_group c g r -> step cf now s r = Done s' rep -> absent_group s' c g.
+Proof.
+  intros Ha Hcr. destruct r; cbn [step].
+  - destruct (add_broker_offset_shape cf s c0 t p cnt off) as [E|[E|[cl [tl [Hc E]]]]]; rewrite E; intros H;
+      [injection H as <- _; exact Ha|discriminate|injection H as <- _].
+    apply (absent_group_set _ _ _ _ _ _ Ha Hc). intros _ Hn. exact Hn.
+  - destruct (add_consumer_offset_shape cf now s c0 g0 t p off order ts) as [E|[cl [parts [lst [Hc [_ [_ [_ E]]]]]]]];
+      rewrite E; intros H; injection H as <- _; [exact Ha|].
+    apply (absent_group_set _ _ _ _ _ _ Ha Hc). intros -> Hn. cbn [cl_consumer]. rewrite get_set.
+    destruct (g0 =? g) eqn:Eg; [|exact Hn]. apply Z.eqb_eq in Eg. subst g0. exfalso. apply Hcr. cbn. auto.
+  - destruct (add_consumer_owner_shape cf s c0 g0 t p owner client) as [E|[cl [Hc [_ [E|[parts [_ E]]]]]]];
+      rewrite E; intros H; injection H as <- _; [exact Ha| |];
+      (apply (absent_group_set _ _ _ _ _ _ Ha Hc); intros -> Hn; cbn [cl_consumer]; rewrite get_set;
+       destruct (g0 =? g) eqn:Eg; [|exact Hn]; apply Z.eqb_eq in Eg; subst g0; exfalso; apply Hcr; cbn; auto).
+  - destruct (clear_consumer_owners_shape cf s c0 g0) as [E|[cl [grp [Hc [_ [Hg E]]]]]];
+      rewrite E; intros H; injection H as <- _; [exact Ha|].
+    apply (absent_group_set _ _ _ _ _ _ Ha Hc). intros -> Hn. cbn [cl_consumer]. rewrite get_set.
+    destruct (g0 =? g) eqn:Eg; [|exact Hn]. apply Z.eqb_eq in Eg. subst g0. congruence.
+  - rewrite delete_topic_eq. intros H. injection H as <- _. destruct (get s c0) as [cl|] eqn:Hc; [|exact Ha].
+    apply (absent_group_set _ _ _ _ _ _ Ha Hc). intros _ Hn. unfold dt_cluster. cbn [cl_consumer].
+    rewrite get_map_vals, Hn. reflexivity.
+  - rewrite delete_group_eq. intros H. injection H as <- _. destruct (get s c0) as [cl|] eqn:Hc; [|exact Ha].
+    destruct (get (cl_consumer cl) g0); [|exact Ha].
+    apply (absent_group_set _ _ _ _ _ _ Ha Hc). intros _ Hn. cbn [cl_consumer]. apply get_dg_cons_none. exact Hn.
+  - intros H. injection H as <- _. exact Ha.
+  - destruct (get s c0); intros H; injection H as <- _; exact Ha.
+  - destruct (get s c0); intros H; injection H as <- _; exact Ha.
+  - intros H. apply fetch_consumer_state in H. destruct H as [->|[cl [grp [Hc [Hg [_ [_ ->]]]]]]]; [exact Ha|].
+    apply (absent_group_set _ _ _ _ _ _ Ha Hc). intros _ Hn. cbn [cl_consumer]. rewrite get_remove.
+    destruct (g0 =? g); [reflexivity|exact Hn].
+  - unfold fetch_topic. destruct (get s c0) as [cl|]; [destruct (get (cl_broker cl) t)|]; intros H; injection H as <- _; exact Ha.
+  - unfold fetch_consumers_for_topic. destruct (get s c0); intros H; injection H as <- _; exact Ha.
+Qed.
+
+Lemma absent_group_not_mentioned cf now s r s' rep c g :
+  absent_group s c g -> step cf now s r = Done s' rep -> ~ mentions_group c g r rep.
+Proof.
+  intros Ha Hs Hm. apply step_obs in Hs. destruct r; cbn [mentions_group] in Hm; try contradiction.
+  - destruct rep; try contradiction. destruct Hm as [-> Hin].
+    rewrite (obs_cluster _ _ s (FetchConsumers c) c eq_refl eq_refl) in Hs.
+    destruct (get s c) as [cl|] eqn:Hc; cbn [cluster_reply] in Hs; [|discriminate].
+    injection Hs as <-. apply get_in_keys in Hin. apply Hin. exact (Ha _ Hc).
+  - destruct rep; try contradiction. destruct Hm as [-> ->].
+    rewrite (obs_cluster _ _ s (FetchConsumer c g) c eq_refl eq_refl) in Hs.
+    destruct (get s c) as [cl|] eqn:Hc; cbn [cluster_reply] in Hs; [|discriminate].
+    rewrite (Ha _ Hc) in Hs. discriminate.
+  - destruct rep; try contradiction. destruct Hm as [-> Hin].
+    rewrite (obs_cluster _ _ s (FetchConsumersForTopic c t) c eq_refl eq_refl) in Hs.
+    destruct (get s c) as [cl|] eqn:Hc; cbn [cluster_reply] in Hs; [|discriminate].
+    injection Hs as <-. apply in_filter_keys_weak in Hin. apply get_in_keys in Hin. apply Hin. exact (Ha _ Hc).
+Qed.
+
+Theorem absent_group_stays cf c g h : forall s s' reps,
+  absent_group s c g -> Forall (fun nr => ~ creates_group c g (snd nr)) h -> run cf s h = Some (s', reps) ->
+  absent_group s' c g /\ Forall2 (fun nr rep => ~ mentions_group c g (snd nr) rep) h reps.
+Proof.
+  induction h as [|[now r] rest IH]; intros s s' reps Ha Hf; cbn [run].
+  - intros H. injection H as <- <-. split; [exact Ha|constructor].
+  - destruct (step cf now s r) as [s1 rep|] eqn:Es; [|discriminate].
+    destruct (run cf s1 rest) as [[s2 reps2]|] eqn:Er; [|discriminate].
+    intros H. injection H as <- <-. inversion Hf as [|? ? Hr Hrest]; subst. cbn [snd] in Hr.
+    destruct (IH _ _ _ (step_absent_group _ _ _ _ _ _ _ _ Ha Hr Es) Hrest Er) as [Ha' Hm].
+    split; [exact Ha'|]. constructor; [|exact Hm]. cbn [snd]. exact (absent_group_not_mentioned _ _ _ _ _ _ _ _ Ha Es).
+Qed.
+
+Lemma absent_after_delete_group cf now s c g : absent_group (after cf now s (DeleteGroup c g 0)) c g.
+Proof.
+  intros cl. rewrite get_after_delete_group, Z.eqb_refl. destruct (get s c) as [cl0|]; [|discriminate].
+  cbn [option_map]. intros H. injection H as <-. cbn [cl_consumer]. apply get_dg_cons_whole.
+Qed.
+
+Lemma run_split cf s h1 now r h2 s' reps :
+  run cf s (h1 ++ (now, r) :: h2) = Some (s', reps) ->
+  exists s1 reps1 s2 rep reps2,
+    run cf s h1 = Some (s1, reps1) /\ step cf now s1 r = Done s2 rep /\ run cf s2 h2 = Some (s', reps2) /\
+    reps = reps1 ++ rep :: reps2 /\ length reps1 = length h1.
+Proof.
+  rewrite run_app. destruct (run cf s h1) as [[s1 reps1]|] eqn:E1; [|discriminate]. cbn [run].
+  destruct (step cf now s1 r) as [s2 rep|] eqn:Es; [|discriminate].
+  destruct (run cf s2 h2) as [[s3 reps2]|] eqn:E2; [|discriminate].
+  intros H. injection H as <- <-. exists s1, reps1, s2, rep, reps2. repeat split; try reflexivity; try assumption.
+  exact (run_length _ _ _ _ _ E1).
+Qed.
+
+(* after a whole-group deletion, and until an offset commit or owner update names the group again, no reply
+   of any continuation mentions it *)
+Theorem deleted_group_stays_gone cf s0 h1 now c g h2 s reps :
+  run cf s0 (h1 ++ (now, DeleteGroup c g 0) :: h2) = Some (s, reps) ->
+  Forall (fun nr => ~ creates_group c g (snd nr)) h2 ->
+  exists reps1 reps2, reps = reps1 ++ RNone :: reps2 /\ length reps1 = length h1 /\
+    Forall2 (fun nr rep => ~ mentions_group c g (snd nr) rep) h2 reps2.
+Proof.
+  intros Hr Hf. apply run_split in Hr. destruct Hr as [s1 [reps1 [s2 [rep [reps2 [_ [Es [E2 [-> Hl]]]]]]]]].
+  destruct (deletion_total cf now s1) as [Hd _]. rewrite Hd in Es. injection Es as <- <-.
+  exists reps1, reps2. split; [reflexivity|]. split; [exact Hl|].
+  exact (proj2 (absent_group_stays _ _ _ _ _ _ _ (absent_after_delete_group _ _ _ _ _) Hf E2)).
+Qed.
+
+(* a group reported as not found (unknown, deleted or just purged as expired) is absent from every later listing
+   until it is ingested again *)
+Theorem notfound_group_stays_unlisted cf s0 h1 now c g h2 s reps :
+  run cf s0 (h1 ++ (now, FetchConsumer c g) :: h2) = Some (s, reps) ->
+  Forall (fun nr => ~ creates_group c g (snd nr)) h2 ->
+  exists reps1 rep reps2, reps = reps1 ++ rep :: reps2 /\ length reps1 = length h1 /\
+    (rep = RNil -> Forall2 (fun nr rep => ~ mentions_group c g (snd nr) rep) h2 reps2).
+Proof.
+  intros Hr Hf. apply run_split in Hr. destruct Hr as [s1 [reps1 [s2 [rep [reps2 [_ [Es [E2 [-> Hl]]]]]]]]].
+  exists reps1, rep, reps2. split; [reflexivity|]. split; [exact Hl|]. intros ->.
+  refine (proj2 (absent_group_stays _ _ _ _ _ _ _ _ Hf E2)).
+  cbn [step] in Es. unfold fetch_consumer in Es. intros cl2 Hc2.
+  destruct (get s1 c) as [cl|] eqn:Hc.
+  - destruct (get (cl_consumer cl) g) as [grp|] eqn:Hg.
+    + destruct (expired cf now (g_last grp)).
+      * injection Es as <-. rewrite get_set_eq in Hc2. injection Hc2 as <-. cbn [cl_consumer]. apply get_remove_eq.
+      * cbv zeta in Es.
+        match type of Es with context [fetch_topics_lags ?a ?b] => destruct (fetch_topics_lags a b) end; discriminate.
+    + injection Es as <-. rewrite Hc in Hc2. injection Hc2 as <-. exact Hg.
+  - injection Es as <-. rewrite Hc in Hc2. discriminate.
+Qed.
+
+(* 8.2 one topic of a group ------------------------------------------------------------------- *)
+
+Lemma absent_gt_set s c0 cl cl' c g t :
+  absent_group_topic s c g t -> get s c0 = Some cl ->
+  (c0 = c -> forall grp', get (cl_consumer cl') g = Some grp' ->
+     (forall grp, get (cl_consumer cl) g = Some grp -> get (g_topics grp) t = None) -> get (g_topics grp') t = None) ->
+  absent_group_topic (set s c0 cl') c g t.
+Proof.
+  intros H Hc Hn cl0 grp0. rewrite get_set. destruct (c0 =? c) eqn:E; [|apply H].
+  apply Z.eqb_eq in E. subst c0. intros X. injection X as <-. intros Hg. apply (Hn eq_refl _ Hg).
+  intros grp Hgrp. exact (H _ _ Hc Hgrp).
+Qed.
+
+Lemma grp_or_empty_none cl g t :
+  (forall grp, get (cl_consumer cl) g = Some grp -> get (g_topics grp) t = None) ->
+  get (g_topics (grp_or_empty cl g)) t = None.
+Proof. intros H. unfold grp_or_empty. destruct (get (cl_consumer cl) g) as [grp|]; [apply H; reflexivity|reflexivity]. Qed.
+
+Lemma step_absent_group_topic cf now s r s' rep c g t :
+  absent_group_topic s c g t -> ~ creates_group_topic c g t r -> step cf now s r = Done s' rep ->
+  absent_group_topic s' c g t.
+Proof.
+  intros Ha Hcr. destruct r; cbn [step].
+  - destruct (add_broker_offset_shape cf s c0 t0 p cnt off) as [E|[E|[cl [tl [Hc E]]]]]; rewrite E; intros H;
+      [injection H as <- _; exact Ha|discriminate|injection H as <- _].
+    apply (absent_gt_set _ _ _ _ _ _ _ Ha Hc). intros _ grp' Hg Hold. exact (Hold _ Hg).
+  - destruct (add_consumer_offset_shape cf now s c0 g0 t0 p off order ts) as [E|[cl [parts [lst [Hc [_ [_ [_ E]]]]]]]];
+      rewrite E; intros H; injection H as <- _; [exact Ha|].
+    apply (absent_gt_set _ _ _ _ _ _ _ Ha Hc). intros -> grp' Hg Hold. cbn [cl_consumer] in Hg. rewrite get_set in Hg.
+    destruct (g0 =? g) eqn:Eg; [|exact (Hold _ Hg)]. apply Z.eqb_eq in Eg. subst g0. injection Hg as <-.
+    cbn [g_topics]. rewrite get_set. destruct (t0 =? t) eqn:Et; [|apply grp_or_empty_none; exact Hold].
+    apply Z.eqb_eq in Et. exfalso. apply Hcr. cbn. auto.
+  - destruct (add_consumer_owner_shape cf s c0 g0 t0 p owner client) as [E|[cl [Hc [_ [E|[parts [_ E]]]]]]];
+      rewrite E; intros H; injection H as <- _; [exact Ha| |].
+    + apply (absent_gt_set _ _ _ _ _ _ _ Ha Hc). intros -> grp' Hg Hold. cbn [cl_consumer] in Hg. rewrite get_set in Hg.
+      destruct (g0 =? g) eqn:Eg; [|exact (Hold _ Hg)]. apply Z.eqb_eq in Eg. subst g0. injection Hg as <-.
+      apply grp_or_empty_none. exact Hold.
+    + apply (absent_gt_set _ _ _ _ _ _ _ Ha Hc). intros -> grp' Hg Hold. cbn [cl_consumer] in Hg. rewrite get_set in Hg.
+      destruct (g0 =? g) eqn:Eg; [|exact (Hold _ Hg)]. apply Z.eqb_eq in Eg. subst g0. injection Hg as <-.
+      cbn [g_topics]. rewrite get_set. destruct (t0 =? t) eqn:Et; [|apply grp_or_empty_none; exact Hold].
+      apply Z.eqb_eq in Et. exfalso. apply Hcr. cbn. auto.
+  - destruct (clear_consumer_owners_shape cf s c0 g0) as [E|[cl [grp [Hc [_ [Hg0 E]]]]]];
+      rewrite E; intros H; injection H as <- _; [exact Ha|].
+    apply (absent_gt_set _ _ _ _ _ _ _ Ha Hc). intros -> grp' Hg Hold. cbn [cl_consumer] in Hg. rewrite get_set in Hg.
+    destruct (g0 =? g) eqn:Eg; [|exact (Hold _ Hg)]. apply Z.eqb_eq in Eg. subst g0. injection Hg as <-.
+    unfold clear_owners_group. cbn [g_topics]. rewrite get_map_vals, (Hold _ Hg0). reflexivity.
+  - rewrite delete_topic_eq. intros H. injection H as <- _. destruct (get s c0) as [cl|] eqn:Hc; [|exact Ha].
+    apply (absent_gt_set _ _ _ _ _ _ _ Ha Hc). intros -> grp' Hg Hold. unfold dt_cluster in Hg. cbn [cl_consumer] in Hg.
+    rewrite get_map_vals in Hg. destruct (get (cl_consumer cl) g) as [grp|] eqn:Eg; [|discriminate].
+    cbn [option_map] in Hg. injection Hg as <-. cbn [dt_group g_topics]. rewrite get_remove.
+    destruct (t0 =? t); [reflexivity|]. exact (Hold _ eq_refl).
+  - rewrite delete_group_eq. intros H. injection H as <- _. destruct (get s c0) as [cl|] eqn:Hc; [|exact Ha].
+    destruct (get (cl_consumer cl) g0) eqn:Eg0; [|exact Ha].
+    apply (absent_gt_set _ _ _ _ _ _ _ Ha Hc). intros -> grp' Hg Hold. cbn [cl_consumer] in Hg.
+    destruct (Z.eq_dec g g0) as [->|Hne]; [|rewrite get_dg_cons_other in Hg by exact Hne; exact (Hold _ Hg)].
+    destruct (Z.eq_dec t0 0) as [->|Ht0]; [rewrite get_dg_cons_whole in Hg; discriminate|].
+    rewrite get_dg_cons_topic in Hg by exact Ht0. rewrite Eg0 in Hg.
+    destruct (is_nil (remove (g_topics c1) t0)); [discriminate|]. injection Hg as <-. cbn [g_topics].
+    rewrite get_remove. destruct (t0 =? t); [reflexivity|]. exact (Hold _ Eg0).
+  - intros H. injection H as <- _. exact Ha.
+  - destruct (get s c0); intros H; injection H as <- _; exact Ha.
+  - destruct (get s c0); intros H; injection H as <- _; exact Ha.
+  - intros H. apply fetch_consumer_state in H. destruct H as [->|[cl [grp [Hc [Hg0 [_ [_ ->]]]]]]]; [exact Ha|].
+    apply (absent_gt_set _ _ _ _ _ _ _ Ha Hc). intros -> grp' Hg Hold. cbn [cl_consumer] in Hg. rewrite get_remove in Hg.
+    destruct (g0 =? g); [discriminate|]. exact (Hold _ Hg).
+  - unfold fetch_topic. destruct (get s c0) as [cl|]; [destruct (get (cl_broker cl) t0)|]; intros H; injection H as <- _; exact Ha.
+  - unfold fetch_consumers_for_topic. destruct (get s c0); intros H; injection H as <- _; exact Ha.
+Qed.
+
+Lemma absent_gt_not_mentioned cf now s r s' rep c g t :
+  wf_state s -> absent_group_topic s c g t -> step cf now s r = Done s' rep -> ~ mentions_group_topic c g t r rep.
+Proof.
+  intros [_ Hall] Ha Hs Hm. apply step_obs in Hs. destruct r; cbn [mentions_group_topic] in Hm; try contradiction.
+  - destruct rep; try contradiction. destruct Hm as [-> [-> Hin]].
+    rewrite (obs_cluster _ _ s (FetchConsumer c g) c eq_refl eq_refl) in Hs.
+    destruct (get s c) as [cl|] eqn:Hc; cbn [cluster_reply] in Hs; [|discriminate].
+    destruct (get (cl_consumer cl) g) as [grp|] eqn:Hg; [|discriminate].
+    destruct (expired cf now (g_last grp)); [discriminate|].
+    destruct (fetch_topics_lags (cl_broker cl) (snap_of grp)) as [l0|] eqn:El; [|discriminate].
+    cbn [option_map] in Hs. injection Hs as <-. rewrite (fetch_topics_lags_keys _ _ _ El), keys_snap_of in Hin.
+    apply get_in_keys in Hin. apply Hin. exact (Ha _ _ Hc Hg).
+  - destruct rep; try contradiction. destruct Hm as [-> [-> Hin]].
+    rewrite (obs_cluster _ _ s (FetchConsumersForTopic c t) c eq_refl eq_refl) in Hs.
+    destruct (get s c) as [cl|] eqn:Hc; cbn [cluster_reply] in Hs; [|discriminate].
+    injection Hs as <-. destruct (Hall _ _ Hc) as [_ [Hnd _]]. apply (in_for_topic _ _ _ Hnd) in Hin.
+    destruct Hin as [v [Hv Hne]]. apply Hne. exact (Ha _ _ Hc Hv).
+Qed.
+
+Theorem absent_group_topic_stays cf c g t h : forall s s' reps,
+  wf_state s -> absent_group_topic s c g t -> Forall (fun nr => ~ creates_group_topic c g t (snd nr)) h ->
+  run cf s h = Some (s', reps) ->
+  absent_group_topic s' c g t /\ Forall2 (fun nr rep => ~ mentions_group_topic c g t (snd nr) rep) h reps.
+Proof.
+  induction h as [|[now r] rest IH]; intros s s' reps Hwf Ha Hf; cbn [run].
+  - intros H. injection H as <- <-. split; [exact Ha|constructor].
+  - destruct (step cf now s r) as [s1 rep|] eqn:Es; [|discriminate].
+    destruct (run cf s1 rest) as [[s2 reps2]|] eqn:Er; [|discriminate].
+    intros H. injection H as <- <-. inversion Hf as [|? ? Hr Hrest]; subst. cbn [snd] in Hr.
+    destruct (IH _ _ _ (step_wf _ _ _ _ _ _ Hwf Es) (step_absent_group_topic _ _ _ _ _ _ _ _ _ Ha Hr Es) Hrest Er) as [Ha' Hm].
+    split; [exact Ha'|]. constructor; [|exact Hm]. cbn [snd].
+    exact (absent_gt_not_mentioned _ _ _ _ _ _ _ _ _ Hwf Ha Es).
+Qed.
+
+Lemma absent_after_delete_group_topic cf now s c g t :
+  t <> 0 -> absent_group_topic (after cf now s (DeleteGroup c g t)) c g t.
+Proof.
+  intros Ht cl grp. rewrite get_after_delete_group, Z.eqb_refl. destruct (get s c) as [cl0|]; [|discriminate].
+  cbn [option_map]. intros H. injection H as <-. cbn [cl_consumer]. rewrite get_dg_cons_topic by exact Ht.
+  destruct (get (cl_consumer cl0) g) as [grp0|]; [|discriminate].
+  destruct (is_nil (remove (g_topics grp0) t)); [discriminate|]. intros H. injection H as <-. cbn [g_topics].
+  apply get_remove_eq.
+Qed.
+
+Theorem deleted_group_topic_stays_gone cf s0 h1 now c g t h2 s reps :
+  wf_state s0 -> t <> 0 ->
+  run cf s0 (h1 ++ (now, DeleteGroup c g t) :: h2) = Some (s, reps) ->
+  Forall (fun nr => ~ creates_group_topic c g t (snd nr)) h2 ->
+  exists reps1 reps2, reps = reps1 ++ RNone :: reps2 /\ length reps1 = length h1 /\
+    Forall2 (fun nr rep => ~ mentions_group_topic c g t (snd nr) rep) h2 reps2.
+Proof.
+  intros Hwf Ht Hr Hf. apply run_split in Hr. destruct Hr as [s1 [reps1 [s2 [rep [reps2 [E1 [Es [E2 [-> Hl]]]]]]]]].
+  pose proof (run_wf _ _ _ _ _ Hwf E1) as Hwf1. pose proof (step_wf _ _ _ _ _ _ Hwf1 Es) as Hwf2.
+  destruct (deletion_total cf now s1) as [Hd _]. rewrite Hd in Es. injection Es as <- <-.
+  exists reps1, reps2. split; [reflexivity|]. split; [exact Hl|].
+  exact (proj2 (absent_group_topic_stays _ _ _ _ _ _ _ _ Hwf2 (absent_after_delete_group_topic _ _ _ _ _ _ Ht) Hf E2)).
+Qed.
+
+(* 8.3 topics --------------------------------------------------------------------------------- *)
+
+Lemma absent_topic_set s c0 cl cl' c t :
+  absent_topic s c t -> get s c0 = Some cl ->
+  (c0 = c -> get (cl_broker cl) t = None ->
+     (forall g grp, In (g, grp) (cl_consumer cl) -> get (g_topics grp) t = None) ->
+     get (cl_broker cl') t = None /\ forall g grp, In (g, grp) (cl_consumer cl') -> get (g_topics grp) t = None) ->
+  absent_topic (set s c0 cl') c t.
+Proof.
+  intros H Hc Hn cl0. rewrite get_set. destruct (c0 =? c) eqn:E; [|apply H].
+  apply Z.eqb_eq in E. subst c0. intros X. injection X as <-. destruct (H _ Hc) as [Hb Hcons].
+  exact (Hn eq_refl Hb Hcons).
+Qed.
+
+Lemma in_set_cases {V} (m : amap V) k v kv : In kv (set m k v) -> kv = (k, v) \/ In kv m.
+Proof. unfold set. intros [H|H]; [left; symmetry; exact H|right; exact (in_remove _ _ _ H)]. Qed.
+
+Lemma in_dg_cons cons g0 t0 g grp' :
+  In (g, grp') (dg_cons cons g0 t0) ->
+  In (g, grp') cons \/ exists grp, get cons g0 = Some grp /\ grp' = mkCgroup (remove (g_topics grp) t0) (g_last grp).
+Proof.
+  unfold dg_cons. destruct (get cons g0) as [grp|] eqn:E; [|auto].
+  destruct (t0 =? 0); [intros H; left; exact (in_remove _ _ _ H)|].
+  destruct (remove (g_topics grp) t0) as [|x r] eqn:Er; [intros H; left; exact (in_remove _ _ _ H)|].
+  intros H. apply in_set_cases in H. destruct H as [H|H]; [|left; exact H].
+  right. injection H as _ ->. exists grp. split; [reflexivity|]. rewrite Er. reflexivity.
+Qed.
+
+Lemma grp_or_empty_none_in cl g0 t :
+  (forall g grp, In (g, grp) (cl_consumer cl) -> get (g_topics grp) t = None) ->
+  get (g_topics (grp_or_empty cl g0)) t = None.
+Proof.
+  intros H. unfold grp_or_empty. destruct (get (cl_consumer cl) g0) as [grp|] eqn:E; [|reflexivity].
+  exact (H _ _ (get_some_in _ _ _ E)).
+Qed.
+
+Lemma filter_has_topic_none cons t :
+  (forall g grp, In (g, grp) cons -> get (g_topics grp) t = None) -> filter (has_topic t) cons = [].
+Proof.
+  induction cons as [|[k v] r IH]; intros H; cbn [filter]; [reflexivity|].
+  unfold has_topic at 1. cbn [snd]. rewrite (H k v) by (left; reflexivity). apply IH.
+  intros g grp Hin. apply (H g grp). right. exact Hin.
+Qed.
+
+Lemma step_absent_topic cf now s r s' rep c t :
+  absent_topic s c t -> ~ creates_topic c t r -> step cf now s r = Done s' rep -> absent_topic s' c t.
+Proof.
+  intros Ha Hcr. destruct r; cbn [step].
+  - destruct (add_broker_offset_shape cf s c0 t0 p cnt off) as [E|[E|[cl [tl [Hc E]]]]]; rewrite E; intros H;
+      [injection H as <- _; exact Ha|discriminate|injection H as <- _].
+    apply (absent_topic_set _ _ _ _ _ _ Ha Hc). intros -> Hb Hcons. cbn [cl_broker cl_consumer]. split; [|exact Hcons].
+    rewrite get_set. destruct (t0 =? t) eqn:Et; [|exact Hb]. apply Z.eqb_eq in Et. exfalso. apply Hcr. cbn. auto.
+  - destruct (add_consumer_offset_shape cf now s c0 g t0 p off order ts) as [E|[cl [parts [lst [Hc [_ [_ [Hbt E]]]]]]]];
+      rewrite E; intros H; injection H as <- _; [exact Ha|].
+    apply (absent_topic_set _ _ _ _ _ _ Ha Hc). intros -> Hb Hcons. cbn [cl_broker cl_consumer]. split; [exact Hb|].
+    intros g1 grp Hin. apply in_set_cases in Hin. destruct Hin as [Hin|Hin]; [|exact (Hcons _ _ Hin)].
+    injection Hin as _ ->. cbn [g_topics]. rewrite get_set. destruct (t0 =? t) eqn:Et.
+    + apply Z.eqb_eq in Et. subst t0. contradiction.
+    + apply grp_or_empty_none_in. exact Hcons.
+  - destruct (add_consumer_owner_shape cf s c0 g t0 p owner client) as [E|[cl [Hc [_ [E|[parts [Hbt E]]]]]]];
+      rewrite E; intros H; injection H as <- _; [exact Ha| |].
+    + apply (absent_topic_set _ _ _ _ _ _ Ha Hc). intros -> Hb Hcons. cbn [cl_broker cl_consumer]. split; [exact Hb|].
+      intros g1 grp Hin. apply in_set_cases in Hin. destruct Hin as [Hin|Hin]; [|exact (Hcons _ _ Hin)].
+      injection Hin as _ ->. apply grp_or_empty_none_in. exact Hcons.
+    + apply (absent_topic_set _ _ _ _ _ _ Ha Hc). intros -> Hb Hcons. cbn [cl_broker cl_consumer]. split; [exact Hb|].
+      intros g1 grp Hin. apply in_set_cases in Hin. destruct Hin as [Hin|Hin]; [|exact (Hcons _ _ Hin)].
+      injection Hin as _ ->. cbn [g_topics]. rewrite get_set. destruct (t0 =? t) eqn:Et.
+      * apply Z.eqb_eq in Et. subst t0. contradiction.
+      * apply grp_or_empty_none_in. exact Hcons.
+  - destruct (clear_consumer_owners_shape cf s c0 g) as [E|[cl [grp0 [Hc [_ [Hg0 E]]]]]];
+      rewrite E; intros H; injection H as <- _; [exact Ha|].
+    apply (absent_topic_set _ _ _ _ _ _ Ha Hc). intros -> Hb Hcons. cbn [cl_broker cl_consumer]. split; [exact Hb|].
+    intros g1 grp Hin. apply in_set_cases in Hin. destruct Hin as [Hin|Hin]; [|exact (Hcons _ _ Hin)].
+    injection Hin as _ ->. unfold clear_owners_group. cbn [g_topics]. rewrite get_map_vals.
+    rewrite (Hcons _ _ (get_some_in _ _ _ Hg0)). reflexivity.
+  - rewrite delete_topic_eq. intros H. injection H as <- _. destruct (get s c0) as [cl|] eqn:Hc; [|exact Ha].
+    apply (absent_topic_set _ _ _ _ _ _ Ha Hc). intros -> Hb Hcons. unfold dt_cluster. cbn [cl_broker cl_consumer]. split.
+    + rewrite get_remove. destruct (t0 =? t); [reflexivity|exact Hb].
+    + intros g1 grp Hin. unfold map_vals in Hin. apply in_map_iff in Hin. destruct Hin as [[g2 grp2] [Heq Hin]].
+      cbn [fst snd] in Heq. injection Heq as _ <-. cbn [dt_group g_topics]. rewrite get_remove.
+      destruct (t0 =? t); [reflexivity|exact (Hcons _ _ Hin)].
+  - rewrite delete_group_eq. intros H. injection H as <- _. destruct (get s c0) as [cl|] eqn:Hc; [|exact Ha].
+    destruct (get (cl_consumer cl) g); [|exact Ha].
+    apply (absent_topic_set _ _ _ _ _ _ Ha Hc). intros -> Hb Hcons. cbn [cl_broker cl_consumer]. split; [exact Hb|].
+    intros g1 grp Hin. apply in_dg_cons in Hin. destruct Hin as [Hin|[grp0 [Hg0 ->]]]; [exact (Hcons _ _ Hin)|].
+    cbn [g_topics]. rewrite get_remove. destruct (t0 =? t); [reflexivity|].
+    exact (Hcons _ _ (get_some_in _ _ _ Hg0)).
+  - intros H. injection H as <- _. exact Ha.
+  - destruct (get s c0); intros H; injection H as <- _; exact Ha.
+  - destruct (get s c0); intros H; injection H as <- _; exact Ha.
+  - intros H. apply fetch_consumer_state in H. destruct H as [->|[cl [grp [Hc [Hg0 [_ [_ ->]]]]]]]; [exact Ha|].
+    apply (absent_topic_set _ _ _ _ _ _ Ha Hc). intros -> Hb Hcons. cbn [cl_broker cl_consumer]. split; [exact Hb|].
+    intros g1 grp1 Hin. exact (Hcons _ _ (in_remove _ _ _ Hin)).
+  - unfold fetch_topic. destruct (get s c0) as [cl|]; [destruct (get (cl_broker cl) t0)|]; intros H; injection H as <- _; exact Ha.
+  - unfold fetch_consumers_for_topic. destruct (get s c0); intros H; injection H as <- _; exact Ha.
+Qed.
+
+Lemma absent_topic_not_mentioned cf now s r s' rep c t :
+  absent_topic s c t -> step cf now s r = Done s' rep -> ~ mentions_topic c t r rep.
+Proof.
+  intros Ha Hs Hm. apply step_obs in Hs. destruct r; cbn [mentions_topic] in Hm; try contradiction.
+  - destruct rep; try contradiction. destruct Hm as [-> Hin].
+    rewrite (obs_cluster _ _ s (FetchTopics c) c eq_refl eq_refl) in Hs.
+    destruct (get s c) as [cl|] eqn:Hc; cbn [cluster_reply] in Hs; [|discriminate].
+    injection Hs as <-. apply get_in_keys in Hin. apply Hin. exact (proj1 (Ha _ Hc)).
+  - destruct rep; try contradiction. destruct Hm as [-> Hin].
+    rewrite (obs_cluster _ _ s (FetchConsumer c g) c eq_refl eq_refl) in Hs.
+    destruct (get s c) as [cl|] eqn:Hc; cbn [cluster_reply] in Hs; [|discriminate].
+    destruct (get (cl_consumer cl) g) as [grp|] eqn:Hg; [|discriminate].
+    destruct (expired cf now (g_last grp)); [discriminate|].
+    destruct (fetch_topics_lags (cl_broker cl) (snap_of grp)) as [l0|] eqn:El; [|discriminate].
+    cbn [option_map] in Hs. injection Hs as <-. rewrite (fetch_topics_lags_keys _ _ _ El), keys_snap_of in Hin.
+    apply get_in_keys in Hin. apply Hin. exact (proj2 (Ha _ Hc) _ _ (get_some_in _ _ _ Hg)).
+  - destruct rep; try contradiction. destruct Hm as [-> ->].
+    rewrite (obs_cluster _ _ s (FetchTopic c t) c eq_refl eq_refl) in Hs.
+    destruct (get s c) as [cl|] eqn:Hc; cbn [cluster_reply] in Hs; [|discriminate].
+    rewrite (proj1 (Ha _ Hc)) in Hs. discriminate.
+  - destruct rep; try contradiction. destruct Hm as [-> [-> Hne]].
+    rewrite (obs_cluster _ _ s (FetchConsumersForTopic c t) c eq_refl eq_refl) in Hs.
+    destruct (get s c) as [cl|] eqn:Hc; cbn [cluster_reply] in Hs; [|discriminate].
+    injection Hs as <-. apply Hne. rewrite (filter_has_topic_none _ _ (proj2 (Ha _ Hc))). reflexivity.
+Qed.
+
+Theorem absent_topic_stays cf c t h : forall s s' reps,
+  absent_topic s c t -> Forall (fun nr => ~ creates_topic c t (snd nr)) h -> run cf s h = Some (s', reps) ->
+  absent_topic s' c t /\ Forall2 (fun nr rep => ~ mentions_topic c t (snd nr) rep) h reps.
+Proof.
+  induction h as [|[now r] rest IH]; intros s s' reps Ha Hf; cbn [run].
+  - intros H. injection H as <- <-. split; [exact Ha|constructor].
+  - destruct (step cf now s r) as [s1 rep|] eqn:Es; [|discriminate].
+    destruct (run cf s1 rest) as [[s2 reps2]|] eqn:Er; [|discriminate].
+    intros H. injection H as <- <-. inversion Hf as [|? ? Hr Hrest]; subst. cbn [snd] in Hr.
+    destruct (IH _ _ _ (step_absent_topic _ _ _ _ _ _ _ _ Ha Hr Es) Hrest Er) as [Ha' Hm].
+    split; [exact Ha'|]. constructor; [|exact Hm]. cbn [snd]. exact (absent_topic_not_mentioned _ _ _ _ _ _ _ _ Ha Es).
+Qed.
+
+Lemma absent_after_delete_topic cf now s c t : absent_topic (after cf now s (DeleteTopic c t)) c t.
+Proof.
+  intros cl. rewrite get_after_delete_topic, Z.eqb_refl. destruct (get s c) as [cl0|]; [|discriminate].
+  cbn [option_map]. intros H. injection H as <-. unfold dt_cluster. cbn [cl_broker cl_consumer]. split; [apply get_remove_eq|].
+  intros g grp Hin. unfold map_vals in Hin. apply in_map_iff in Hin. destruct Hin as [[g2 grp2] [Heq _]].
+  cbn [fst snd] in Heq. injection Heq as _ <-. cbn [dt_group g_topics]. apply get_remove_eq.
+Qed.
+
+Theorem deleted_topic_stays_gone cf s0 h1 now c t h2 s reps :
+  run cf s0 (h1 ++ (now, DeleteTopic c t) :: h2) = Some (s, reps) ->
+  Forall (fun nr => ~ creates_topic c t (snd nr)) h2 ->
+  exists reps1 reps2, reps = reps1 ++ RNone :: reps2 /\ length reps1 = length h1 /\
+    Forall2 (fun nr rep => ~ mentions_topic c t (snd nr) rep) h2 reps2.
+Proof.
+  intros Hr Hf. apply run_split in Hr. destruct Hr as [s1 [reps1 [s2 [rep [reps2 [_ [Es [E2 [-> Hl]]]]]]]]].
+  destruct (deletion_total cf now s1) as [_ Hd]. rewrite Hd in Es. injection Es as <- <-.
+  exists reps1, reps2. split; [reflexivity|]. split; [exact Hl|].
+  exact (proj2 (absent_topic_stays _ _ _ _ _ _ _ (absent_after_delete_topic _ _ _ _ _) Hf E2)).
+Qed.
+
+(* ------------------------------------------------------------------------------------------ *)
+(* 9. C10, storage half                                                                        *)
+(* ------------------------------------------------------------------------------------------ *)
+
+(* the three ingestion handlers consult the lists before touching anything *)
+Theorem storage_rejected_noop cf now s g :
+  cf_accept cf g = false ->
+  (forall c t p off order ts, step cf now s (SetConsumerOffset c g t p off order ts) = Done s RNone) /\
+  (forall c t p owner client, step cf now s (SetConsumerOwner c g t p owner client) = Done s RNone) /\
+  (forall c, step cf now s (ClearConsumerOwners c g) = Done s RNone).
+Proof.
+  intros Ha. split; [|split]; intros; cbn [step].
+  - unfold add_consumer_offset. destruct (get s c); [|reflexivity]. rewrite Ha. cbn [negb].
+    destruct (too_old cf now ts); reflexivity.
+  - unfold add_consumer_owner. destruct (get s c); [|reflexivity]. rewrite Ha. reflexivity.
+  - unfold clear_consumer_owners. destruct (get s c); [|reflexivity]. rewrite Ha. reflexivity.
+Qed.
+
+Definition rejected (cf : config) (r : req) : bool :=
+  match ingest_group r with Some g => negb (cf_accept cf g) | None => false end.
+
+Lemma rejected_noop cf now s r : rejected cf r = true -> step cf now s r = Done s RNone.
+Proof.
+  unfold rejected. destruct r; cbn [ingest_group]; try discriminate; intros H; apply negb_true_iff in H;
+    apply (storage_rejected_noop cf now s g H).
+Qed.
+
+Lemma step_absent_group_rejected cf now s r s' rep c g :
+  cf_accept cf g = false -> absent_group s c g -> step cf now s r = Done s' rep -> absent_group s' c g.
+Proof.
+  intros Hrej Ha Hs.
+  assert (Hdec : creates_group c g r \/ ~ creates_group c g r).
+  { destruct r; cbn [creates_group]; try (right; tauto);
+      (destruct (Z.eq_dec c0 c) as [->|]; [destruct (Z.eq_dec g0 g) as [->|]; [left; auto|right; tauto]|right; tauto]). }
+  destruct Hdec as [Hc|Hc]; [|exact (step_absent_group _ _ _ _ _ _ _ _ Ha Hc Hs)].
+  assert (Hn : step cf now s r = Done s RNone).
+  { apply rejected_noop. unfold rejected. destruct r; cbn [creates_group] in Hc; try contradiction;
+      destruct Hc as [_ ->]; cbn [ingest_group]; rewrite Hrej; reflexivity. }
+  rewrite Hn in Hs. injection Hs as <- _. exact Ha.
+Qed.
+
+Theorem rejected_group_stays_out cf g h : forall s s' reps,
+  cf_accept cf g = false -> (forall c, absent_group s c g) -> run cf s h = Some (s', reps) ->
+  (forall c, absent_group s' c g) /\ Forall2 (fun nr rep => forall c, ~ mentions_group c g (snd nr) rep) h reps.
+Proof.
+  induction h as [|[now r] rest IH]; intros s s' reps Hrej Ha; cbn [run].
+  - intros H. injection H as <- <-. split; [exact Ha|constructor].
+  - destruct (step cf now s r) as [s1 rep|] eqn:Es; [|discriminate].
+    destruct (run cf s1 rest) as [[s2 reps2]|] eqn:Er; [|discriminate].
+    intros H. injection H as <- <-.
+    destruct (IH _ _ _ Hrej (fun c => step_absent_group_rejected _ _ _ _ _ _ c _ Hrej (Ha c) Es) Er) as [Ha' Hm].
+    split; [exact Ha'|]. constructor; [|exact Hm]. cbn [snd]. intros c.
+    exact (absent_group_not_mentioned _ _ _ _ _ _ _ _ (Ha c) Es).
+Qed.
+
+Lemma absent_init cls c g : absent_group (init_state cls) c g.
+Proof.
+  intros cl Hg. apply get_some_in in Hg. unfold init_state in Hg. apply in_map_iff in Hg.
+  destruct Hg as [x [Hx _]]. injection Hx as _ <-. reflexivity.
+Qed.
+
+(* a group that the lists reject never enters storage, whichever of the three paths it arrives on, and no listing or
+   detail query ever shows it *)
+Theorem storage_rejected_never_enters cf cls g h s reps :
+  cf_accept cf g = false -> run cf (init_state cls) h = Some (s, reps) ->
+  (forall c cl, get s c = Some cl -> get (cl_consumer cl) g = None) /\
+  Forall2 (fun nr rep => forall c, ~ mentions_group c g (snd nr) rep) h reps.
+Proof.
+  intros Hrej Hr. destruct (rejected_group_stays_out _ _ _ _ _ _ Hrej (fun c => absent_init cls c g) Hr) as [Ha Hm].
+  split; [intros c cl; exact (Ha c cl)|exact Hm].
+Qed.
+
+(* positive half: with the lists switched off *)
+Definition no_lists (cf : config) : config :=
+  mkConfig (cf_intervals cf) (cf_expire cf) (cf_min_distance cf) (fun _ => true).
+
+Theorem storage_accepted_as_if_no_lists cf now s r :
+  rejected cf r = false -> step cf now s r = step (no_lists cf) now s r.
+Proof.
+  unfold rejected. destruct r; cbn [ingest_group step]; intros H; try reflexivity.
+  - apply negb_false_iff in H. unfold add_consumer_offset, too_old, get_consumer_partition, no_lists.
+    cbn [cf_intervals cf_expire cf_min_distance cf_accept]. rewrite H. reflexivity.
+  - apply negb_false_iff in H. unfold add_consumer_owner, get_consumer_partition, no_lists.
+    cbn [cf_intervals cf_expire cf_min_distance cf_accept]. rewrite H. reflexivity.
+  - apply negb_false_iff in H. unfold clear_consumer_owners, no_lists.
+    cbn [cf_intervals cf_expire cf_min_distance cf_accept]. rewrite H. reflexivity.
+Qed.
+
+Definition visible (reps : list reply) : list reply :=
+  filter (fun rep => match rep with RNone => false | _ => true end) reps.
+Definition keep (cf : config) (nr : Z * req) : bool := negb (rejected cf (snd nr)).
+Definition view (x : state * list reply) : state * list reply := (fst x, visible (snd x)).
+
+(* the lists do nothing but drop the ingestion requests of rejected groups: final state and all replies equal those of
+   the same storage without lists run on the history with those requests removed *)
+Theorem storage_lists_only_filter cf h : forall s,
+  option_map view (run cf s h) = option_map view (run (no_lists cf) s (filter (keep cf) h)).
+Proof.
+  induction h as [|[now r] rest IH]; intros s; [reflexivity|].
+  cbn [filter]. unfold keep at 1. cbn [snd]. destruct (rejected cf r) eqn:Erej; cbn [negb].
+  - cbn [run]. rewrite (rejected_noop _ now s _ Erej). rewrite <- IH.
+    destruct (run cf s rest) as [[s2 reps2]|]; reflexivity.
+  - cbn [run]. rewrite <- (storage_accepted_as_if_no_lists cf now s r Erej).
+    destruct (step cf now s r) as [s1 rep|]; [|reflexivity]. specialize (IH s1).
+    destruct (run cf s1 rest) as [[s2 reps2]|]; destruct (run (no_lists cf) s1 (filter (keep cf) rest)) as [[s3 reps3]|];
+      cbn [option_map] in IH |- *; try discriminate IH; [|reflexivity].
+    unfold view in IH |- *. cbn [fst snd] in IH |- *. injection IH as -> Hv. unfold visible in Hv |- *. cbn [filter].
+    rewrite Hv. reflexivity.
+Qed.
+
+(* ------------------------------------------------------------------------------------------ *)
+(* 10. Concrete states for the non-vacuity Examples                                            *)
+(* ------------------------------------------------------------------------------------------ *)
+
+(* two clusters (1, 2) sharing group names (1, 2) and topic names (1, 2); in cluster 1 group 1 consumes topics 1 and 2,
+   group 2 consumes topic 1 only (its last topic, shared with group 1); group 5 is rejected by the lists and arrives on
+   all three ingestion paths *)
+Definition ex_cf : config := mkConfig 3 1000 0 (fun g => negb (g =? 5)).
+Definition ex_now : Z := 1600000000.
+Definition ex_ts : Z := 1600000000000.
+Definition ex_hist : list (Z * req) :=
+  [ (ex_now, SetBrokerOffset 1 1 0 1 100); (ex_now, SetBrokerOffset 1 2 0 1 200);
+    (ex_now, SetBrokerOffset 2 1 0 1 100); (ex_now, SetBrokerOffset 2 2 0 1 200);
+    (ex_now, SetConsumerOffset 1 1 1 0 90 1 ex_ts); (ex_now, SetConsumerOffset 1 1 2 0 190 1 ex_ts);
+    (ex_now, SetConsumerOffset 1 2 1 0 95 1 ex_ts);
+    (ex_now, SetConsumerOffset 2 1 1 0 80 1 ex_ts); (ex_now, SetConsumerOffset 2 2 1 0 85 1 ex_ts);
+    (ex_now, SetConsumerOffset 1 5 1 0 50 1 ex_ts); (ex_now, SetConsumerOwner 1 5 1 0 1 1);
+    (ex_now, ClearConsumerOwners 1 5) ].
+Definition ex_state : state :=
+  match run ex_cf (init_state [1; 2]) ex_hist with Some (s, _) => s | None => [] end.
+
+Lemma ex_state_reachable : run ex_cf (init_state [1; 2]) ex_hist = Some (ex_state, repeat RNone 12).
+Proof. vm_compute. reflexivity. Qed.
+
+Lemma ex_state_wf : wf_state ex_state.
+Proof.
+  apply (reachable_wf ex_cf [1; 2] ex_hist ex_state (repeat RNone 12)); [|exact ex_state_reachable].
+  repeat constructor; cbn; intuition discriminate.
+Qed.
+
+Definition ex_names (now : Z) (s : state) (r : req) : list Z := names (obs ex_cf now s r).
+
+Lemma ex_shared_names :
+  wf_state ex_state /\
+  ex_names ex_now ex_state FetchClusters = [2; 1] /\
+  ex_names ex_now ex_state (FetchConsumers 1) = [2; 1] /\ ex_names ex_now ex_state (FetchConsumers 2) = [2; 1] /\
+  ex_names ex_now ex_state (FetchTopics 1) = [2; 1] /\ ex_names ex_now ex_state (FetchTopics 2) = [2; 1] /\
+  ex_names ex_now ex_state (FetchConsumersForTopic 1 1) = [2; 1] /\
+  ex_names ex_now ex_state (FetchConsumer 1 1) = [2; 1] /\ ex_names ex_now ex_state (FetchConsumer 1 2) = [1].
+Proof. split; [exact ex_state_wf|]. vm_compute. repeat split; reflexivity. Qed.
+
+Lemma ex_delete_group :
+  let s' := after ex_cf ex_now ex_state (DeleteGroup 1 1 0) in
+  ex_names ex_now s' (FetchConsumers 1) = [2] /\ ex_names ex_now s' (FetchConsumers 2) = [2; 1] /\
+  obs ex_cf ex_now s' (FetchConsumer 1 1) = Some RNil /\
+  obs ex_cf ex_now s' (FetchConsumer 2 1) = obs ex_cf ex_now ex_state (FetchConsumer 2 1) /\
+  ex_names ex_now s' (FetchConsumer 2 1) = [1] /\
+  ex_names ex_now s' (FetchConsumersForTopic 1 1) = [2] /\ ex_names ex_now s' (FetchConsumer 1 2) = [1].
+Proof. vm_compute. repeat split; reflexivity. Qed.
+
+Lemma ex_delete_last_topic :
+  let s' := after ex_cf ex_now ex_state (DeleteGroup 1 2 1) in
+  ex_names ex_now s' (FetchConsumers 1) = [1] /\ obs ex_cf ex_now s' (FetchConsumer 1 2) = Some RNil /\
+  ex_names ex_now s' (FetchConsumersForTopic 1 1) = [1] /\ ex_names ex_now s' (FetchConsumer 1 1) = [2; 1] /\
+  ex_names ex_now s' (FetchConsumers 2) = [2; 1] /\ ex_names ex_now s' (FetchConsumer 2 2) = [1].
+Proof. vm_compute. repeat split; reflexivity. Qed.
+
+Lemma ex_delete_one_of_several :
+  let s' := after ex_cf ex_now ex_state (DeleteGroup 1 1 2) in
+  has_other_topic ex_state 1 1 2 /\
+  ex_names ex_now s' (FetchConsumers 1) = [1; 2] /\ ex_names ex_now s' (FetchConsumer 1 1) = [1] /\
+  ex_names ex_now s' (FetchConsumersForTopic 1 2) = [] /\ ex_names ex_now s' (FetchConsumersForTopic 1 1) = [1; 2].
+Proof.
+  split; [|vm_compute; repeat split; reflexivity].
+  unfold has_other_topic. vm_compute. do 2 eexists. exists 1. split; [reflexivity|]. split; [reflexivity|].
+  split; discriminate.
+Qed.
+
+Lemma ex_delete_topic :
+  let s' := after ex_cf ex_now ex_state (DeleteTopic 1 1) in
+  ex_names ex_now s' (FetchTopics 1) = [2] /\ ex_names ex_now s' (FetchTopics 2) = [2; 1] /\
+  ex_names ex_now s' (FetchConsumers 1) = [2; 1] /\ obs ex_cf ex_now s' (FetchConsumer 1 2) = Some (RConsumer []) /\
+  ex_names ex_now s' (FetchConsumer 1 1) = [2] /\ ex_names ex_now s' (FetchConsumersForTopic 1 1) = [] /\
+  obs ex_cf ex_now s' (FetchTopic 1 1) = Some RNil /\ ex_names ex_now s' (FetchConsumer 2 1) = [1].
+Proof. vm_compute. repeat split; reflexivity. Qed.
+
+Lemma ex_expiry :
+  in_i64 ((ex_now + 1001 - cf_expire ex_cf) * 1000) /\
+  expired ex_cf (ex_now + 1001) ex_ts = true /\ expired ex_cf (ex_now + 1000) ex_ts = false /\
+  too_old ex_cf (ex_now + 1001) ex_ts = true /\ too_old ex_cf (ex_now + 1000) ex_ts = false /\
+  obs ex_cf (ex_now + 1001) ex_state (FetchConsumer 1 1) = Some RNil /\
+  ex_names (ex_now + 1001) (after ex_cf (ex_now + 1001) ex_state (FetchConsumer 1 1)) (FetchConsumers 1) = [2] /\
+  ex_names (ex_now + 1000) ex_state (FetchConsumer 1 1) = [2; 1] /\
+  after ex_cf (ex_now + 1000) ex_state (FetchConsumer 1 1) = ex_state.
+Proof. split; [unfold in_i64; vm_compute; split; [discriminate|reflexivity]|]. vm_compute. repeat split; reflexivity. Qed.
+
+(* outside the guard of expired_spec / too_old_spec the int64 product wraps: a commit at time 0 counts as expired at clock 0
+   when expire-group is 9223372036854776 s although 0 is not below the (negative) mathematical threshold *)
+Lemma expiry_guard_needed :
+  exists cf now last, expired cf now last = true /\ too_old cf now last = true /\ ~ last < (now - cf_expire cf) * 1000.
+Proof.
+  exists (mkConfig 1 9223372036854776 0 (fun _ => true)), 0, 0. split; [vm_compute; reflexivity|].
+  split; [vm_compute; reflexivity|]. vm_compute. discriminate.
+Qed.
+
+Lemma ex_rejected :
+  cf_accept ex_cf 5 = false /\ cf_accept ex_cf 1 = true /\
+  In (ex_now, SetConsumerOffset 1 5 1 0 50 1 ex_ts) ex_hist /\ In (ex_now, SetConsumerOwner 1 5 1 0 1 1) ex_hist /\
+  In (ex_now, ClearConsumerOwners 1 5) ex_hist /\
+  obs ex_cf ex_now ex_state (FetchConsumer 1 5) = Some RNil /\ ~ In 5 (ex_names ex_now ex_state (FetchConsumers 1)) /\
+  length (filter (keep ex_cf) ex_hist) = 9%nat /\
+  option_map fst (run (no_lists ex_cf) (init_state [1; 2]) (filter (keep ex_cf) ex_hist)) = Some ex_state /\
+  In 5 (names (obs (no_lists ex_cf) ex_now
+                   (match run (no_lists ex_cf) (init_state [1; 2]) ex_hist with Some (s, _) => s | None => [] end)
+                   (FetchConsumers 1))).
+Proof.
+  vm_compute. repeat split; try reflexivity; try tauto.
+  intros [H|[H|[]]]; discriminate.
+Qed.
